@@ -291,7 +291,7 @@ pub fn run(op: &str, args: &[&str]) -> Option<String> {
                     Some(k) => format!("OK {}", show_hex(k.as_bytes())),
                     None => "OK -".to_string(),
                 },
-                Err(_) => "ERR".to_string(),
+                Err(e) => crate::err_shown(&e),
             })
         }
         _ => None,
